@@ -11,8 +11,7 @@ UNITS = []
 UNITS.append(dict(
     name='C01.hdr.field', props=['C01', 'C10', 'C16'], kind='P', route='stub',
     tus=[dict(file=HDR, include_as='VERIF_TU'), dict(file=STR), dict(file=BASIC), dict(file=SIG)], harness='harness/c01h_field.c', extra_sources=[ASSERT],
-    replace_calls={'_dbus_header_cache_revalidate': 'verif_stub_cache_revalidate',
-                                     '_dbus_string_copy_len': 'verif_stub_string_copy_len'},
+    replace_calls={'_dbus_header_cache_revalidate': 'verif_stub_cache_revalidate'},
     unwindset=['_dbus_string_equal_substring.0:29'], cbmc_flags=['--unwinding-assertions'], timeout=900, expect_s=30,
     must_have=['field.type', 'field.twice', 'field.validator', 'field.local', 'field.verdict'],
     functions=[dict(name='load_and_validate_field', file=HDR, status='enforced',
@@ -137,3 +136,36 @@ for _i, (_nm, _mk) in enumerate([
     for _le, _tier in ((_i % 2, 'quick'), (1 - _i % 2, 'thorough')):
         _n, _a, _note = _mk(_le)
         exact_unit('%s.%s%d' % (_nm, 'le' if _le else 'be', _n), _n, _a, _tier, note=('little' if _le else 'big') + ' endian, %d bytes, ' % _n + _note)
+
+# ---- iterator read-back on bodies (B): real validator + real values reader vs the independent value extractor ----
+ITER_TUS = [dict(file=f) for f in (VAL, STR, REC, BASIC, SIG)]
+def _w(le, off, v):
+    return ''.join('in_buf[%d]=%d;' % (off + i, b) for i, b in enumerate(u32(le, v)))
+
+
+# (signature, body bytes, [(offset, value) of the length words made constant], note)
+ITER_CATALOGUE = [('y', 8, None), ('b', 8, None), ('n', 8, None), ('q', 8, None), ('i', 8, None), ('u', 8, None), ('x', 16, None), ('t', 16, None), ('d', 16, None), ('h', 8, None),
+                  ('s', 10, None), ('o', 10, None), ('g', 6, None), ('yu', 12, None), ('yx', 16, None), ('ys', 12, None), ('sy', 12, None), ('(yu)', 12, None), ('(y(yu))', 16, None),
+                  ('au', 12, [(0, 8)]), ('au', 4, [(0, 0)]), ('ay', 7, [(0, 3)]), ('an', 8, [(0, 4)]), ('ax', 24, [(0, 16)]), ('a(yu)', 24, [(0, 16)]), ('aau', 16, [(0, 12), (4, 8)]),
+                  ('a{yu}', 16, [(0, 8)]), ('as', 10, [(0, 6), (4, 1)]), ('yau', 16, [(4, 8)]), ('auy', 13, [(0, 8)])]
+for _i, (_sig, _n, _fix) in enumerate(ITER_CATALOGUE):
+    for _le, _tier in ((_i % 2, 'quick'), (1 - _i % 2, 'thorough')):
+        if _sig == 'as':
+            _tier = 'thorough'      # ~3 min (UTF-8 validation of symbolic content inside the array)
+        _asg = ('in_len=%d;' % _n + ''.join(_w(_le, o, v) for o, v in _fix)) if _fix is not None else None
+        UNITS.append(dict(name='C01.iter.%s.%s%d' % (_sig, 'le' if _le else 'be', _n), props=['C01', 'C10'], kind='B', route='plain', tus=ITER_TUS,
+                          harness='harness/c01h_iter.c', extra_sources=[ASSERT, 'stubs/list_as_stack.c'],
+                          defines=['VERIF_N=%d' % _n, 'VERIF_LE=%d' % _le, 'VERIF_SIG="%s"' % _sig] + (['VERIF_BODY_ASSIGN=%s' % _asg] if _asg else []) + (['VERIF_NO_REJECT=1'] if _fix is not None and _sig in ('au', 'ay', 'an', 'aau', 'auy') else []), unwind=_n + 6, timeout=1800, tier=_tier, expect_s=30,
+                          bounds={'signature': _sig, 'body_bytes': _n, 'byte_order': 'little' if _le else 'big',
+                                  'constant_length_words': ('body length %d, array/string length words (offset, value): %s' % (_n, _fix)) if _fix is not None else 'none (every byte and the length symbolic)'},
+                          functions=[dict(name='_dbus_type_reader_init/_get_current_type/_read_basic/_recurse/_next (values reader)', file=REC, status='bounded'),
+                                     dict(name='_dbus_marshal_read_basic/_dbus_marshal_skip_basic/_skip_array', file=BASIC, status='bounded'),
+                                     dict(name='_dbus_validate_body_with_reason', file=VAL, status='bounded', note='as the precondition "accepted body" (its exactness: C01.body.*)')],
+                          assumptions=['dbus-list behaves as a LIFO stack of integers in the signature validator (stub, not verified)']))
+
+UNITS.append(dict(
+    name='C01.read_basic', props=['C01', 'C02'], kind='P', route='plain', tus=[dict(file=BASIC), dict(file=STR), dict(file=SIG)],
+    harness='harness/c01h_readbasic.c', extra_sources=[ASSERT], timeout=600, expect_s=20, must_have=['read_basic: a fixed-size value', 'read_uint32'],
+    functions=[dict(name='_dbus_marshal_read_basic/_dbus_marshal_read_uint32', file=BASIC, status='enforced',
+                    contract='value = specification decoding of the bytes at the aligned position, both byte orders, all basic types; new_pos just behind the value; string of symbolic size')],
+    assumptions=['the value lies inside the string (precondition; established by the body validator)']))
